@@ -7,7 +7,8 @@ import MindsVerif.Model.SingleLine
       → canonical form of the copy (`Heap.canon`) # iso=<Heap.isoCheck original copy>, or `none`
   stepeq TY k=v … | TY k=v …                     → true | false | none | raises   (`PlanStep.__eq__`)
   planeq FIXED SAMETYPE _ s s … | _ s s …        step tokens (after a dummy `_`); equal tokens = equal steps (`QueryPlan.__eq__`)
-  hash pinned N | hash fixed N T                  → TypeError | ok <h>   (`Result.__hash__`: former / repaired, T = hash(('Result', N)))
+  reseq SN SN                                     step numbers i<int> | s<text> → true | false   (`Result.__eq__`)
+  hash pinned N | hash fixed SN T                 → TypeError | ok <h>   (`Result.__hash__`: former / live, T = hash(('Result', step_num)))
   sline VARIANT n,n,n…                            character codes; `to_single_line` (pinned | fixed) → character codes
   coleq a b c d e f | a b c d e f                 name type pk default length nullable (`TableColumn.__eq__`) -/
 open MindsVerif.Heap MindsVerif.PyEq
@@ -67,13 +68,23 @@ def handle (line : String) : String :=
                  else MindsVerif.SingleLine.collapseGo false false cs
       ",".intercalate (out.map (fun c => toString c.toNat))
     | ["sline", _] => ""
+    | ["reseq", a, b] =>
+      let rd (t : String) : Option StepNum :=
+        if t.startsWith "i" then (t.drop 1).toInt?.map StepNum.int
+        else if t.startsWith "s" then some (StepNum.str (t.drop 1).toString) else none
+      match rd a, rd b with
+      | some x, some y => if resultEqSN x y then "true" else "false"
+      | _, _ => "bad-line"
     | ["hash", "pinned", n] =>
       match n.toInt? with
       | some i => (match resultHash (fun x => x) i with | .ok v => s!"ok {v}" | .error e => e)
       | none => "bad-line"
     | ["hash", "fixed", n, t] =>
-      match n.toInt?, t.toInt? with
-      | some i, some tv => (match resultHashFixed (fun _ _ => tv) i with | .ok v => s!"ok {v}" | .error e => e)
+      let sn : Option StepNum :=
+        if n.startsWith "i" then (n.drop 1).toInt?.map StepNum.int
+        else if n.startsWith "s" then some (StepNum.str (n.drop 1).toString) else none
+      match sn, t.toInt? with
+      | some x, some tv => s!"ok {resultHashSN (fun _ => tv) x}"
       | _, _ => "bad-line"
     | "coleq" :: a =>
       match a, rest.map words with
